@@ -3,6 +3,7 @@
 From Coq Require Import List NArith Bool Permutation.
 From SV Require Import Fmt.VpkDir Fmt.VpkDirProofs Fmt.VpkName Fmt.VpkNameSplit Fmt.VpkNameProofs SM.Vpk SM.VpkProofs.
 From SV Require Import Fmt.VpkArchName Fmt.VpkArchNameProofs SM.VpkRefine Fmt.VpkDirV2.
+From SV Require Import Fmt.VpkNameJoin Fmt.VpkNameJoinProofs SM.VpkPlaceTable SM.VpkPlaceTableProofs Fmt.VpkDirProg Fmt.VpkDirProgProofs Fmt.VpkDirRead Fmt.VpkDirReadProofs SM.VpkProperty SM.VpkGenMachine SM.VpkGenMachineProofs.
 From SV Require Import Fmt.VpkNullStr Fmt.VpkNullStrProofs SM.VpkNested SM.VpkNestedProofs SM.VpkApi SM.VpkApiProofs SM.VpkNestedMap SM.VpkNestedMapProofs SM.VpkNestedSim SM.VpkNestedWf SM.VpkPlace SM.VpkPlaceProofs.
 Import ListNotations.
 Open Scope N_scope.
@@ -443,3 +444,222 @@ Theorem c13_read_tables_computed :
   /\ read_table_ok [mkRRow false false RArch ROther; mkRRow false true RFooter RFooter; mkRRow true false RNone RNone; mkRRow true true RNone RNone] = false
   /\ read_table_ok [mkRRow false false RArch RArch] = false.
 Proof. exact read_tables_computed. Qed.
+
+(** ---- the two name helpers as read from the source (Fmt/VpkNameJoin.v; Gen/VpkNames_gen.v g_join_table / g_parts) ---- *)
+
+(** Every table obtained by executing _join_file_parts on symbolic strings (eight combinations of empty / non-empty folder, stem,
+    extension) that is accepted by [join_table_ok] (instance obligation) is [join_parts] of the model on every key: folder and '/' when
+    there is a folder, the stem, '.' and the extension when there is an extension. *)
+Theorem c13_join_table_is_model : forall tb, join_table_ok tb = true -> forall k, join_k tb k = Some (join_parts k).
+Proof. exact join_table_ok_is_join_parts. Qed.
+
+(** Every description of _get_file_parts (sources of folder / file name / extension for the three name forms, split statement reached,
+    chain of operations on the folder, order of the result) accepted by [gparts_ok] (instance obligation) is [file_parts_k] of the model
+    for every normpath, every split statement and every name form. *)
+Theorem c13_get_parts_description_is_model : forall g, gparts_ok g = true -> forall normpath k f,
+  file_parts_g normpath k g f = file_parts_k normpath k f.
+Proof. exact gparts_ok_is_file_parts. Qed.
+
+(** _get_file_parts o _join_file_parts = id on the keys that can be listed: the name filenames() / FileInfo.filename show for an entry
+    resolves back to that entry, for every os.path.normpath.  [key_listable]: the folder is in the form _get_file_parts returns, stem and
+    extension contain no '/', the extension no '.', and (the carve-out, exactly the known finding name-trailing-dot) a stem containing
+    '.' has an extension. *)
+Theorem c13_listed_name_resolves : forall normpath k, key_listable normpath k -> file_parts normpath (NStr (join_parts k)) = k.
+Proof. exact parts_of_join. Qed.
+
+(** The same about the generated objects of both helpers and the translated split statement. *)
+Theorem c13_generated_listed_name_resolves : forall normpath sk g tb,
+  split_kind_ok sk = true -> gparts_ok g = true -> join_table_ok tb = true ->
+  forall k, key_listable normpath k -> exists s, join_k tb k = Some s /\ file_parts_g normpath sk g (NStr s) = k.
+Proof. exact generated_parts_of_join. Qed.
+
+(** _join_file_parts o _get_file_parts = id on names in the listed form (folder as _get_file_parts returns it, one '/', the file name)
+    whose file name does not end in '.'. *)
+Theorem c13_join_of_parts : forall normpath s h t, split_path s = (h, t) -> norm_dir normpath h = h ->
+  s = h ++ (match h with [] => [] | _ => [47] end) ++ t -> (forall a, rsplit1 46 t <> Some (a, [])) ->
+  join_parts (file_parts normpath (NStr s)) = s.
+Proof. exact join_of_parts. Qed.
+
+(** The pinned table is accepted; the table of seeded fault c13_5 ('/'.join(filter(None, (path, filename))): the separator is dropped
+    with a blank stem) is rejected, and lists the dot-file ('a', '', 't') as 'a.t', which resolves to ('', 'a', 't'). *)
+Theorem c13_join_tables_computed :
+  join_table_ok join_table_pinned = true /\ join_table_ok join_table_c13_5 = false /\ join_table_ok [] = false
+  /\ join_k join_table_c13_5 ([116], [97], []) = Some [97; 46; 116]
+  /\ join_parts ([116], [97], []) = [97; 47; 46; 116]
+  /\ file_parts posix_normpath (NStr [97; 46; 116]) = ([116], [], [97]).
+Proof. exact join_tables_computed. Qed.
+
+Theorem c13_get_parts_descriptions_computed :
+  gparts_ok gparts_pinned = true /\ gparts_ok gparts_triple_ext_dropped = false
+  /\ file_parts_g posix_normpath (SplitLast 46) gparts_triple_ext_dropped (NTriple [97] [98] [116]) = ([], [97], [98]).
+Proof. exact gparts_computed. Qed.
+
+(** The carve-out is exact: 'a/b.c.' is stored as (ext '', stem 'b.c'), listed as 'a/b.c', which resolves to (ext 'c', stem 'b'). *)
+Theorem c13_listed_name_trailing_dot_refuted :
+  file_parts posix_normpath (NStr [97; 47; 98; 46; 99; 46]) = ([], [97], [98; 46; 99])
+  /\ join_parts ([], [97], [98; 46; 99]) = [97; 47; 98; 46; 99]
+  /\ file_parts posix_normpath (NStr [97; 47; 98; 46; 99]) = ([99], [97], [98])
+  /\ jhas 46 [98; 46; 99] = true.
+Proof. exact parts_of_join_trailing_dot_refuted. Qed.
+
+(** Non-vacuity: 'a/b.txt', the dot-file 'cfg/.g' in a sub-folder and '' are listable. *)
+Theorem c13_key_listable_examples :
+  key_listable posix_normpath ([116; 120; 116], [97], [98]) /\ key_listable posix_normpath ([103], [99; 102; 103], [])
+  /\ key_listable posix_normpath ([], [], []).
+Proof. exact key_listable_examples. Qed.
+
+(** ---- the decision tables have a meaning of their own (SM/VpkPlaceTable.v) ---- *)
+
+(** FileInfo.write run *from the placement table* ([write_info_t]: pick the row of the situation, cut where it says, put the rest where it
+    says, store the index and offset it says) is [write_info] of the state machine, for every table accepted by [place_table_ok] and
+    every configuration, state, entry, data and index. *)
+Theorem c13_write_table_is_write_info : forall pt, place_table_ok pt = true -> forall crc cf st i d ix,
+  write_info_t pt crc cf st i d ix = Some (write_info crc cf st i d ix).
+Proof. exact write_info_t_is_write_info. Qed.
+
+(** FileInfo.read / verify run from the read table are [read_info] / [verify_info]. *)
+Theorem c13_read_table_is_read_info : forall rt, read_table_ok rt = true -> forall crc st i,
+  read_info_t rt st i = Some (read_info st i) /\ verify_info_t rt crc st i = Some (verify_info crc st i).
+Proof. exact read_info_t_is_read_info. Qed.
+
+(** ---- write_dirfile / load_dirfile as programs read from the source (Fmt/VpkDirProg.v, Fmt/VpkDirRead.v; Gen/VpkDirProg_gen.v) ---- *)
+
+(** The statements of write_dirfile inside its with-block, compiled to a program and run on a file buffer with a cursor: every program
+    accepted by [wprog_ok] leaves exactly [enc_file] in the file (or raises struct.error exactly when [enc_file] is [None]) — header, mark,
+    loops extension > folder > file over sorted dicts skipping empty ones, string / entry / preload, one NUL after each level, tree
+    length measured before footer_data is written and patched in at offset 8. *)
+Theorem c13_write_dirfile_program_is_encoder : forall p, wprog_ok p = true -> forall c t footer, wexec c footer p t = enc_file c t footer.
+Proof. exact wprog_ok_is_enc_file. Qed.
+
+(** The statements of load_dirfile after the file is opened: every program accepted by [rprog_ok] returns what [dec_file_v] returns on
+    every input (well-formed or not; versions 1 and 2). *)
+Theorem c13_load_dirfile_program_is_decoder : forall p, rprog_ok p = true -> forall c bs, rexec c p bs = dec_file_v c bs.
+Proof. exact rprog_ok_is_dec_file_v. Qed.
+
+(** The translated reader reads back what the translated writer wrote. *)
+Theorem c13_dirfile_programs_roundtrip : forall wp rp, wprog_ok wp = true -> rprog_ok rp = true -> forall c, dcfg_ok c = true ->
+  forall t footer b, wf_tree c t -> wexec c footer wp t = Some b -> rexec c rp b = Some (1, nmap (flat_tree t), footer).
+Proof. exact programs_roundtrip. Qed.
+
+(** Wrong programs: no terminator after the folder level / preload before the entry (the file does not decode); tree length taken after
+    footer_data (wrong header; the library's lenient reader still loads it). *)
+Theorem c13_write_dirfile_programs_computed :
+  wprog_ok wprog_pinned = true
+  /\ match wexec ex_c [5; 6] wprog_pinned ex_t with Some b => dec_file ex_c b | None => None end = Some (nmap (flat_tree ex_t), [5; 6])
+  /\ wprog_ok wprog_no_dir_term = false
+  /\ match wexec ex_c [5; 6] wprog_no_dir_term ex_t with Some b => dec_file ex_c b | None => None end <> Some (nmap (flat_tree ex_t), [5; 6])
+  /\ wprog_ok wprog_len_after_footer = false
+  /\ wexec ex_c [5; 6] wprog_len_after_footer ex_t <> enc_file ex_c ex_t [5; 6]
+  /\ wprog_ok wprog_preload_first = false
+  /\ match wexec ex_c [5; 6] wprog_preload_first ex_t with Some b => dec_file ex_c b | None => None end <> Some (nmap (flat_tree ex_t), [5; 6]).
+Proof. exact wprogs_computed. Qed.
+
+(** Wrong readers: version-2 fields not skipped, header_len marked before them, the sentinel rewrite of the archive index forgotten. *)
+Theorem c13_load_dirfile_programs_computed :
+  rprog_ok rprog_pinned = true
+  /\ rexec ex_c rprog_pinned ex_dirfile = Some (1, nmap (flat_tree ex_t), [5; 6])
+  /\ rexec ex_c rprog_pinned ex_v2 = Some (2, nmap (flat_tree ex_t), [5; 6])
+  /\ rprog_ok rprog_no_v2_skip = false /\ rexec ex_c rprog_no_v2_skip ex_v2 <> Some (2, nmap (flat_tree ex_t), [5; 6])
+  /\ rprog_ok rprog_mark_before_v2 = false
+  /\ rprog_ok rprog_no_idx_sentinel = false
+  /\ rexec ex_c rprog_no_idx_sentinel ex_dirfile <> Some (1, nmap (flat_tree ex_t), [5; 6])
+  /\ rprog_ok rprog_no_early_exit = false
+  /\ rexec ex_c rprog_no_early_exit ex_dirfile = Some (1, nmap (flat_tree ex_t), [5; 6]).
+Proof. exact rprogs_computed. Qed.
+
+(** ---- the whole property as one statement (SM/VpkProperty.v) ---- *)
+
+(** [c13_hyps] collects, as one boolean, everything assumed about today's source: the objects the translators read from vpk.py (truth
+    table of __exit__, format constants and validations, placement and read tables, get-or-create steps of new_file, clean-up of
+    __delitem__, NUL-terminated string codec, programs of write_dirfile and load_dirfile, split statement, description of
+    _get_file_parts, table of _join_file_parts, archive naming sites) each pass their obligation.  Under it, for every checksum function
+    and every os.path.normpath: (1) any history of adding, overwriting, deleting, saving, reopening, with-blocks and load_dirfile(),
+    whose data values do not collide under the checksum and whose fields fit 32 bits ([xrun]/[run] not [None]), followed by leaving a
+    with-block (or write_dirfile) and reopening in 'r'/'a': every call returned what the specification map says, the reopened archive
+    lists exactly the files that should exist, and each file read as the read table says gives the bytes last written and verifies;
+    (2) the write of the machine is the write the placement table describes, for every placement; (3) write_dirfile / reopen of the
+    machine are the translated programs and the reader inverts the writer; (4) tree strings of any length go through the translated
+    codec; (5) the nested dicts hold exactly the machine's table; (6) the three name forms agree and a listed name resolves to its
+    entry (carve-out: last component ending in '.'); (7) numbered archives are found again; (8) read-only archives reject every mutation. *)
+Theorem c13_property : forall et cf pt rt g1 g2 prog nk wp rp sk gp jt nc,
+  c13_hyps et cf pt rt g1 g2 prog nk wp rp sk gp jt nc = true -> forall (crc : bytes -> N) (normpath : bytes -> bytes),
+  (forall xs m st codes, m <> MW -> collision_free crc (xplain xs) ->
+     xrun et crc cf init (xs ++ [XExit true; XOp (OReopen m)]) = Some (st, codes) ->
+     let '(s0, c0) := sxrun cf sinit xs in
+     writable (smd s0) = true ->
+     codes = c0 ++ [rOk; rOk] /\ md st = m /\ Permutation (map fst (tbl st)) (map fst (cur s0)) /\
+     forall k, match alookup k (tbl st), alookup k (cur s0) with
+               | Some i, Some d => read_info_t rt st i = Some d /\ verify_info_t rt crc st i = Some true
+               | None, None => True
+               | _, _ => False
+               end)
+  /\ (forall ops m st codes, m <> MW -> collision_free crc ops ->
+     run crc cf init (ops ++ [OSave; OReopen m]) = Some (st, codes) ->
+     let '(s0, c0) := srun cf sinit ops in
+     writable (smd s0) = true ->
+     codes = c0 ++ [rOk; rOk] /\ md st = m /\ Permutation (map fst (tbl st)) (map fst (cur s0)) /\
+     forall k, match alookup k (tbl st), alookup k (cur s0) with
+               | Some i, Some d => read_info_t rt st i = Some d /\ verify_info_t rt crc st i = Some true
+               | None, None => True
+               | _, _ => False
+               end)
+  /\ (forall st i d ix, write_info_t pt crc cf st i d ix = Some (write_info crc cf st i d ix))
+  /\ (forall t footer, wexec (v_dc cf) footer wp t = enc_file (v_dc cf) t footer)
+  /\ (forall bs, rexec (v_dc cf) rp bs = dec_file_v (v_dc cf) bs)
+  /\ (forall t footer b, wf_tree (v_dc cf) t -> wexec (v_dc cf) footer wp t = Some b -> rexec (v_dc cf) rp b = Some (1, nmap (flat_tree t), footer))
+  /\ (forall s, write_cstr_k nk s = write_cstr s) /\ (forall bs, next_str_k nk bs = next_str bs)
+  /\ (forall s rest, str_ok s = true -> next_str_k nk (write_cstr_k nk s ++ rest) = Some (Some s, rest))
+  /\ (forall ops, exists t, nt_run g1 g2 prog [] ops = Some t
+        /\ Permutation (map fst (flat_tree t)) (map fst (tb_run [] ops)) /\ forall k, alookup k (flat_tree t) = alookup k (tb_run [] ops))
+  /\ (forall s, let '(h, t) := split_path s in let '(n, e) := split_ext t [] in
+        file_parts_g normpath sk gp (NPair h t) = file_parts_g normpath sk gp (NStr s)
+        /\ ((e = [] -> rsplit1 46 n = None) -> file_parts_g normpath sk gp (NTriple h n e) = file_parts_g normpath sk gp (NStr s)))
+  /\ (forall k, key_listable normpath k -> exists s, join_k jt k = Some s /\ file_parts_g normpath sk gp (NStr s) = k)
+  /\ (forall f p i, dir_prefix_of nc f = Some p ->
+        site_name nc f (n_writer nc) i = Some (arch_filename nc p (Some i))
+        /\ Forall (fun r => site_name nc f r i = Some (arch_filename nc p (Some i))) (n_readers nc)
+        /\ arch_filename nc p None = f)
+  /\ (forall st o, md st = MR -> mutating o = true -> exists c, step crc cf st o = Some (st, c) /\ (c = rReadOnly \/ c = rMissing)).
+Proof. exact c13_property_composed. Qed.
+
+(** Non-vacuity: the objects of vpk.py as pinned satisfy [c13_hyps] (the check proves the same for the objects generated on every run:
+    instance obligation c13_property_hypotheses_hold_for_todays_source). *)
+Theorem c13_property_hypotheses_satisfiable :
+  c13_hyps exit_table_pinned ex_cfg table_pinned rtable_pinned goc_pinned goc_pinned del_prog_pinned ncodec_pinned wprog_pinned rprog_pinned
+           (SplitLast 46) gparts_pinned join_table_pinned (ex_ncfg (n_writer (ex_ncfg reader_rstrip))) = true.
+Proof. exact c13_hyps_pinned. Qed.
+
+(** ---- the state machine assembled from the generated objects (SM/VpkGenMachine.v) ---- *)
+
+(** [gstep] is the state machine with FileInfo.write run from the placement table, write_dirfile run as the translated writer program and
+    reopening run as the translated reader program.  Whenever it gives an answer, the hand-written machine [step] gives the same one
+    (it gives none when a field overflows, or when a version-2 file is reopened: write_dirfile never produces one). *)
+Theorem c13_generated_machine_step : forall pt wp rp crc cf,
+  place_table_ok pt = true -> wprog_ok wp = true -> rprog_ok rp = true ->
+  forall st o r, gstep pt wp rp crc cf st o = Some r -> step crc cf st o = Some r.
+Proof. exact gstep_sound. Qed.
+
+(** Hence the property at its observation point holds for the generated machine: any history it runs, then write_dirfile, then reopen in
+    'r'/'a': the result codes of the specification map, exactly the files that should exist, each read back from the read table with the
+    bytes last written and verifying. *)
+Theorem c13_generated_machine_history : forall pt rt wp rp crc cf,
+  place_table_ok pt = true -> read_table_ok rt = true -> wprog_ok wp = true -> rprog_ok rp = true -> vcfg_ok cf = true ->
+  forall ops m st codes, m <> MW -> collision_free crc ops ->
+  grun pt wp rp crc cf init (ops ++ [OSave; OReopen m]) = Some (st, codes) ->
+  let '(s0, c0) := srun cf sinit ops in
+  writable (smd s0) = true ->
+  codes = c0 ++ [rOk; rOk] /\ md st = m /\ Permutation (map fst (tbl st)) (map fst (cur s0)) /\
+  forall k, match alookup k (tbl st), alookup k (cur s0) with
+            | Some i, Some d => read_info_t rt st i = Some d /\ verify_info_t rt crc st i = Some true
+            | None, None => True
+            | _, _ => False
+            end.
+Proof. exact generated_machine_history. Qed.
+
+(** Non-vacuity: the generated machine runs the example history over all four placements with the real CRC-32. *)
+Theorem c13_generated_machine_example :
+  match grun table_pinned wprog_pinned rprog_pinned crc32 ex_cfg init ex_ops, run crc32 ex_cfg init ex_ops with
+  | Some (s1, c1), Some (s2, c2) => (if list_eq_dec N.eq_dec c1 c2 then true else false) && Nat.eqb (length (tbl s1)) (length (tbl s2)) && negb (Nat.eqb (length (tbl s1)) 0)
+  | _, _ => false
+  end = true.
+Proof. exact generated_machine_example. Qed.
